@@ -585,7 +585,110 @@ func c06(run *ev.Run) int {
 			run.Violation("c06/status-not-a-function/"+k, fmt.Sprintf("responses with status %s and no valid protocol error produced %d different codes", k, len(codes)), fmt.Sprint(codes))
 		}
 	}
+	c06BareResponses(run)
 	return run.Finish("calls", "errors.checked", "status.derived.checked", "meta.casing.checked")
+}
+
+// c06BareResponses: responses from a canned / replaying HTTPClient that leaves
+// Response.Header and Response.Trailer nil (net/http's own transports never
+// do, http.Client copes): whatever the body says, the call ends without a
+// panic and every error is coded. The bodies carry a server error with
+// metadata, the case in which the client merges maps.
+func c06BareResponses(run *ev.Run) {
+	for _, protocol := range svc.Protocols {
+		for _, codec := range svc.Codecs {
+			for _, kind := range svc.Kinds {
+				for _, shape := range []string{"error+metadata", "error", "metadata", "clean", "message+error+metadata"} {
+					for _, maps := range []string{"header=nil,trailer=nil", "header=nil", "trailer=nil"} {
+						key := fmt.Sprintf("c06/bare-response/%s/%s/%s/%s/%s", protocol, codec, kind, shape, maps)
+						if !run.Want(key) {
+							continue
+						}
+						var body []byte
+						if strings.HasPrefix(shape, "message") {
+							body = refcodec.AppendFrame(body, 0, encMsg(codec, &gen.Msg{Id: 5, Note: "m"}))
+						}
+						end := "{}"
+						switch strings.TrimPrefix(shape, "message+") {
+						case "error+metadata":
+							end = `{"error":{"code":"resource_exhausted","message":"quota"},"metadata":{"X-Quota":["1","2"],"x-lower":["v"]}}`
+						case "error":
+							end = `{"error":{"code":"resource_exhausted","message":"quota"}}`
+						case "metadata":
+							end = `{"metadata":{"X-Quota":["1","2"]}}`
+						}
+						header := http.Header{}
+						switch protocol {
+						case "connect":
+							if kind == svc.Unary {
+								body = []byte(`{"code":"resource_exhausted","message":"quota"}`)
+							} else {
+								body = refcodec.AppendFrame(body, 0x02, []byte(end))
+							}
+						case "grpcweb":
+							body = refcodec.AppendFrame(body, 0x80, []byte("grpc-status: 8\r\ngrpc-message: quota\r\nx-quota: 1\r\n"))
+						}
+						if !strings.HasPrefix(maps, "header=nil") {
+							header.Set("Content-Type", contentType(protocol, codec, kind))
+						}
+						status := 200
+						if protocol == "connect" && kind == svc.Unary {
+							status = 429
+							if !strings.HasPrefix(maps, "header=nil") {
+								header.Set("Content-Type", "application/json")
+							}
+						}
+						data := body
+						cn := &wire.Canned{Background: true, Respond: func(req *http.Request, _ []byte) (*http.Response, error) {
+							resp := wire.NewResponse(req, status, header, &wire.ScriptedBody{Data: data}, nil)
+							if strings.HasPrefix(maps, "header=nil") {
+								resp.Header = nil
+							}
+							if strings.HasSuffix(maps, "trailer=nil") {
+								resp.Trailer = nil
+							}
+							return resp, nil
+						}}
+						cs := svc.NewClientSet(cn, "http://verif.local", append(svc.ProtoOpts(protocol, codec), connect.WithReadMaxBytes(1<<20))...)
+						var cl *svc.CLog
+						var panicked any
+						ok, dump := watchdog(20*time.Second, func() {
+							defer func() { panicked = recover() }()
+							cl = cs.Do(context.Background(), kind, "h", nil, []*gen.Msg{{Id: 1}})
+						})
+						run.Count("calls", 1)
+						run.Count("bare_responses", 1)
+						run.Eval(fmt.Sprintf("bare|%s|%s|%s|%s|%s", protocol, codec, kind, shape, maps))
+						detail := map[string]any{"protocol": protocol, "codec": codec, "kind": kind.String(), "shape": shape, "maps": maps, "body_text": trunc(string(body), 300)}
+						if !ok {
+							run.Violation(key+"/hang", "client call did not return within 20 s", map[string]any{"case": detail, "goroutines": trunc(dump, 20000)})
+							continue
+						}
+						if panicked != nil {
+							detail["panic"] = fmt.Sprint(panicked)
+							run.Violation(key+"/panic", fmt.Sprintf("client call panicked: %v", panicked), detail)
+							continue
+						}
+						for _, e := range append([]error{cl.Err, cl.CloseErr}, cl.SendErrs...) {
+							if e == nil {
+								continue
+							}
+							run.Count("errors.checked", 1)
+							var ce *connect.Error
+							if !errors.As(e, &ce) || ce.Code() == 0 {
+								detail["error"] = e.Error()
+								run.Violation(key+"/uncoded", "operation returned an error that is not a coded *connect.Error: "+e.Error(), detail)
+								break
+							}
+						}
+						if strings.Contains(shape, "error") && protocol != "grpc" && cl.Err == nil && !strings.HasPrefix(maps, "header=nil") {
+							run.Violation(key+"/error-lost", "the response carried a server error but the call succeeded", detail)
+						}
+					}
+				}
+			}
+		}
+	}
 }
 
 func c06Case(run *ev.Run, seen *statusSeen, protocol, codec string, kind svc.Kind, cfg, key string, h *hostile) {
